@@ -11,8 +11,10 @@ Open Scope list_scope.
 Inductive op :=
 | OBind (key : string) (v : value)                 (* bind_parameter('scope/sel.arg', v) *)
 | OBindT (scope sel arg : string) (v : value)      (* bind_parameter((scope, sel, arg), v) *)
+| OParse (key : string) (v : value)                (* parse_config('key = <v>') : one statement *)
 | OQuery (key : string)
 | OCall (sel : string) (args : list value) (kwargs : pdict)
+| OCallVia (target : string) (args : list value) (kwargs : pdict)  (* gin.get_configurable('sc/sel')(...) *)
 | OWith (a : scope_arg) (body : list op)
 | ORaise
 | OCurScope
@@ -241,6 +243,16 @@ Fixpoint exec (fuel : nat) (s : state) (o : op) {struct fuel} : state * res unit
           | Ok v' => let '(scope, sel, arg) := parse_binding_key key in
                      run_res (bind_split s scope sel arg v') ONone
           end
+      | OParse key v =>
+          (* statement consumer (2371-2380): a key without '.arg' defines a macro *)
+          match resolve s v with
+          | Raise e => (s, Raise e)
+          | Ok v' => let '(scope, sel, arg) := parse_binding_key key in
+                     if String.eqb arg "" then
+                       run_res (bind_split s (if String.eqb scope "" then sel else scope ++ "/" ++ sel)
+                                           "gin.macro" "value" v') ONone
+                     else run_res (bind_split s scope sel arg v') ONone
+          end
       | OBindT scope sel arg v =>
           match resolve s v with
           | Raise e => (s, Raise e)
@@ -274,6 +286,20 @@ Fixpoint exec (fuel : nat) (s : state) (o : op) {struct fuel} : state * res unit
           match r with
           | Ok v => (emit (value_out v) s1, Ok tt)
           | Raise e => (s1, Raise e)
+          end
+      | OCallVia target args kwargs =>
+          (* get_configurable (1469-1471): _as_scope_and_selector, then _decorate_with_scope *)
+          let parts := split_slash target in
+          match reg_lookup s (last parts "") with
+          | LAmbiguous => (s, Raise "KeyError")
+          | LNone => (s, Raise "ValueError")
+          | LFound c =>
+              let sc := match removelast parts with [] => current_scope s | sc => sc end in
+              let '(s1, r) := call_handle f s sc (c_sel c) args kwargs in
+              match r with
+              | Ok v => (emit (value_out v) s1, Ok tt)
+              | Raise e => (s1, Raise e)
+              end
           end
       | OWith a body =>
           let '(new_scope, valid) := enter_scope_value (current_scope s) a in
